@@ -29,8 +29,8 @@ EXHAUSTIVE = {'quick': False, 'thorough': False}
 EXHAUSTIVE_NOTE = 'the DOM-name <-> CSS-name sweep enumerates every known property name'
 ASSUMPTIONS = ['invalid values are rejected (raising mode) and must leave the block unchanged - judged here as part of the model']
 MIN_EVENTS = {
-    'quick': {'oracle.step': 60000, 'oracle.domname': 130, 'oracle.variables-step': 15000, 'histories': 8000},
-    'thorough': {'oracle.step': 1500000, 'oracle.domname': 130, 'oracle.variables-step': 400000, 'histories': 200000},
+    'quick': {'oracle.step': 60000, 'oracle.domname': 100, 'oracle.variables-step': 15000, 'histories': 6000},
+    'thorough': {'oracle.step': 1500000, 'oracle.domname': 100, 'oracle.variables-step': 400000, 'histories': 200000},
 }
 
 NAMES = ['color', 'COLOR', 'Color', 'c\\olor', 'co\\lor', 'top', 'TOP', 'margin-top', 'Margin-Top', 'x-foo', 'left']
